@@ -70,6 +70,20 @@ func requestSeeds(rng *rand.Rand) [][]byte {
 	out = append(out, gen.BuildReq(rng, map[string]string{"extra": "some"}, []string{"chat, json"}, []string{"permessage-deflate; client_max_window_bits; server_max_window_bits=10", "foo; a=1; b=\"q q\""}).Bytes())
 	out = append(out, gen.BuildReq(rng, map[string]string{"eol": "lf", "connection": "list-middle"}, []string{"a", "b,c"}, []string{"permessage-deflate"}).Bytes())
 	out = append(out, gen.BuildReq(rng, map[string]string{"extra": "long-value", "upgrade": "case-value"}, nil, nil).Bytes())
+	// LONG lists: more elements than any fixed-size bookkeeping a parser might keep (9..300 subprotocols,
+	// extension offers, Connection tokens; on one line and spread over lines)
+	for _, n := range []int{9, 10, 11, 17, 33, 65, 129, 300} {
+		var ps, es, cs []string
+		for i := 0; i < n; i++ {
+			ps = append(ps, fmt.Sprintf("proto%d.x", i*2+1)) // (odd length: refused by the length-parity selector)
+			es = append(es, fmt.Sprintf("ext%d; k%d=%d", i, i, i))
+			cs = append(cs, fmt.Sprintf("tok%d", i))
+		}
+		r := gen.BuildReq(rng, nil, []string{strings.Join(ps, ", ")}, []string{strings.Join(es, ", ")})
+		out = append(out, r.Bytes())
+		out = append(out, bytes.Replace(r.Bytes(), []byte("Connection: Upgrade"), []byte("Connection: "+strings.Join(cs, ",")+", Upgrade"), 1))
+		out = append(out, gen.BuildReq(rng, nil, ps, es).Bytes()) // one header line per element
+	}
 	// every single-factor derivation the handshake generator knows (valid and invalid forms of each header)
 	for _, f := range gen.ReqFactors {
 		for _, v := range gen.ReqVariants[f][1:] {
@@ -81,6 +95,13 @@ func requestSeeds(rng *rand.Rand) [][]byte {
 
 func responseSeeds() [][]byte {
 	out := responseSeedsFixed()
+	for _, n := range []int{9, 10, 17, 65, 300} {
+		var es []string
+		for i := 0; i < n; i++ {
+			es = append(es, fmt.Sprintf("ext%d; k%d=%d", i, i, i))
+		}
+		out = append(out, []byte("HTTP/1.1 101 Switching Protocols\r\nUpgrade: websocket\r\nConnection: Upgrade\r\nSec-WebSocket-Extensions: "+strings.Join(es, ", ")+"\r\nSec-WebSocket-Accept: s3pPLMBiTxaQ9kYGzzhZRbK+xOo=\r\n\r\n"))
+	}
 	rng := rand.New(rand.NewSource(777))
 	for _, f := range gen.RespFactors {
 		for _, v := range gen.RespVariants[f][1:] {
